@@ -13,6 +13,20 @@ static CALL_INFO: Mutex<Option<(String, Vec<u8>)>> = Mutex::new(None);
 static LAST_PANIC: Mutex<Option<(String, String)>> = Mutex::new(None);
 
 pub const CALL_TIMEOUT_MS: u64 = 20_000;
+/// CPU time this (single-threaded) process must have burnt while the call was in flight before the watchdog fires:
+/// a call that is merely descheduled on a loaded machine is not a call that does not return.
+pub const CALL_CPU_MIN_MS: u64 = 8_000;
+
+/// user + system CPU time of this process in ms (from /proc/self/stat; USER_HZ = 100 on Linux).
+fn process_cpu_ms() -> Option<u64> {
+    let s = std::fs::read_to_string("/proc/self/stat").ok()?;
+    let rest = &s[s.rfind(')')? + 1..];
+    let f: Vec<&str> = rest.split_whitespace().collect();
+    // rest starts at field 3 (state): utime is field 14, stime field 15
+    let ut: u64 = f.get(11)?.parse().ok()?;
+    let st: u64 = f.get(12)?.parse().ok()?;
+    Some((ut + st) * 10)
+}
 
 fn now_ms() -> u64 {
     SystemTime::now().duration_since(UNIX_EPOCH).map(|d| d.as_millis() as u64).unwrap_or(0)
@@ -46,10 +60,20 @@ pub fn install(ctx: &Ctx, frag_path: &str) {
     let frag = frag_path.to_string();
     let prop = ctx.prop.clone();
     let engine = ctx.engine.clone();
+    let mut tracked: (u64, u64) = (0, 0); // (start stamp of the call being watched, process CPU ms when first seen)
     std::thread::spawn(move || loop {
         std::thread::sleep(std::time::Duration::from_millis(500));
         let started = CALL_STARTED_MS.load(Ordering::SeqCst);
-        if started != 0 && now_ms().saturating_sub(started) > CALL_TIMEOUT_MS {
+        if started == 0 {
+            tracked = (0, 0);
+            continue;
+        }
+        if tracked.0 != started {
+            tracked = (started, process_cpu_ms().unwrap_or(0));
+            continue;
+        }
+        let burnt = process_cpu_ms().map(|c| c.saturating_sub(tracked.1));
+        if now_ms().saturating_sub(started) > CALL_TIMEOUT_MS && burnt.map_or(true, |b| b >= CALL_CPU_MIN_MS) {
             let (label, input) = CALL_INFO.lock().ok().and_then(|g| g.clone()).unwrap_or_default();
             let v = json!({
                 "evaluations": 1,
@@ -57,7 +81,7 @@ pub fn install(ctx: &Ctx, frag_path: &str) {
                 "violations": [{
                     "sig": format!("{}/non-return/{}", prop, label),
                     "clause": "the call returns normally",
-                    "detail": format!("call '{}' did not return within {} s of wall time", label, CALL_TIMEOUT_MS / 1000),
+                    "detail": format!("call '{}' did not return within {} s of wall time while this process burnt {:?} ms of CPU time (a normal call takes microseconds)", label, CALL_TIMEOUT_MS / 1000, burnt),
                     "replay": {"property": prop, "engine": engine, "mode": "single-input", "label": label, "input_hex": crate::rng::hex(&input)}
                 }],
                 "violation_sigs": {format!("{}/non-return/{}", prop, label): 1},
